@@ -1,9 +1,9 @@
 import PersimVerif.Drv.Util
-/-! driver commands: PL (stub until the model lands) -/
+import PersimVerif.Drv.PNorm
+/-! driver commands: PL (dispatcher; C10's norm operations live in `Drv/PNorm.lean`) -/
 namespace PersimVerif.Drv.PL
 open PersimVerif Val PersimVerif.Drv
 
-def handle : Handler
-  | _, _ => none
+def handle : Handler := fun op args => PNorm.handle op args
 
 end PersimVerif.Drv.PL
